@@ -106,82 +106,104 @@ Proof. unfold gcount. cbn [filter]. destruct (conn_err_out o); reflexivity. Qed.
 (* ---------- the header-decoding view of a stream, and how a stream may evolve outside header decoding ---------- *)
 Definition hv (s : stream) : N * bool * bytes * N := (st_id s, st_headersFinished s, st_prev s, st_blockFields s).
 
-Definition tr (s x : stream) : Prop :=
+(* a stream whose header block is open may only be closed once the server has reset it (or answered it:
+   impossible, see P) *)
+Definition close_ok (k : bool) (x : stream) : Prop :=
+  k = true -> st_headersFinished x = false -> st_weReset x = true \/ st_responded x = true.
+
+(* k = true: strict, the last clause is tracked as well *)
+Definition tr (k : bool) (s x : stream) : Prop :=
   hv x = hv s /\
   sstate_rank (st_state s) <= sstate_rank (st_state x) /\
   (st_responded s = true -> st_responded x = true) /\
   (st_responded x = true -> st_responded s = true \/ (st_headersFinished s = true /\ 3 <= sstate_rank (st_state x))) /\
-  (st_handlerRunning x = true -> st_handlerRunning s = true \/ st_responded x = true).
+  (st_handlerRunning x = true -> st_handlerRunning s = true \/ st_responded x = true) /\
+  (st_weReset s = true -> st_weReset x = true) /\
+  (st_state x = SClosed -> st_state s = SClosed \/ close_ok k x).
 
-Lemma tr_refl s : tr s s.
+Lemma tr_refl k s : tr k s s.
 Proof. unfold tr. repeat split; auto; lia. Qed.
 
-Lemma tr_trans a b c : tr a b -> tr b c -> tr a c.
+Lemma tr_trans k a b c : tr k a b -> tr k b c -> tr k a c.
 Proof.
-  unfold tr, hv. intros (A1 & A2 & A3 & A4 & A5) (B1 & B2 & B3 & B4 & B5).
+  unfold tr, hv. intros (A1 & A2 & A3 & A4 & A5 & A6 & A7) (B1 & B2 & B3 & B4 & B5 & B6 & B7).
   inversion A1 as [[Ai Ah Ap Ab]]. inversion B1 as [[Bi Bh Bp Bb]].
-  split; [congruence|]. split; [lia|]. split; [auto|]. split.
+  split; [congruence|]. split; [lia|]. split; [auto|]. split; [|split; [|split; [auto|]]].
   - intro H. destruct (B4 H) as [H1|[H1 H2]].
     + destruct (A4 H1) as [H3|[H3 H4]]; [left; assumption | right; split; [congruence | lia]].
     + right. split; [congruence | assumption].
   - intro H. destruct (B5 H) as [H1|H1]; [|right; assumption].
     destruct (A5 H1) as [H2|H2]; [left; assumption | right; auto].
+  - intro H. destruct (B7 H) as [H1|H1]; [|right; assumption].
+    destruct (A7 H1) as [H2|H2]; [left; assumption|]. right.
+    intros K Hf. destruct (H2 K) as [W|R]; [congruence | left; auto | right; auto].
 Qed.
 
-Lemma tr_id s x : tr s x -> st_id x = st_id s.
+Lemma tr_id k s x : tr k s x -> st_id x = st_id s.
 Proof. intros [H _]. inversion H. reflexivity. Qed.
-Lemma tr_hf s x : tr s x -> st_headersFinished x = st_headersFinished s.
+Lemma tr_hf k s x : tr k s x -> st_headersFinished x = st_headersFinished s.
 Proof. intros [H _]. inversion H. reflexivity. Qed.
-Lemma tr_prev s x : tr s x -> st_prev x = st_prev s.
+Lemma tr_prev k s x : tr k s x -> st_prev x = st_prev s.
 Proof. intros [H _]. inversion H. reflexivity. Qed.
-Lemma tr_bf s x : tr s x -> st_blockFields x = st_blockFields s.
+Lemma tr_bf k s x : tr k s x -> st_blockFields x = st_blockFields s.
 Proof. intros [H _]. inversion H. reflexivity. Qed.
+Lemma tr_responded k s x : tr k s x -> st_responded s = true -> st_responded x = true.
+Proof. unfold tr. tauto. Qed.
 
 Ltac tr_tac := unfold tr, hv; cbn; repeat split; auto; try lia.
 
-Lemma tr_set_state_closed s : tr s (set_state s SClosed).
-Proof. tr_tac. destruct (st_state s); cbn; lia. Qed.
-Lemma tr_set_weReset s : tr s (set_weReset s). Proof. tr_tac. Qed.
-Lemma tr_set_window s w : tr s (set_window s w). Proof. tr_tac. Qed.
-Lemma tr_set_snd s n : tr s (set_snd s n). Proof. tr_tac. Qed.
-Lemma tr_set_recv s r q : tr s (set_recv s r q). Proof. tr_tac. Qed.
-Lemma tr_set_state s st : sstate_rank (st_state s) <= sstate_rank st -> tr s (set_state s st).
-Proof. intro H. tr_tac. Qed.
-Lemma tr_handle_state fr s : tr s (handle_state fr s).
+(* transformers that keep the state *)
+Lemma tr_set_weReset k s : tr k s (set_weReset s). Proof. tr_tac. Qed.
+Lemma tr_set_window k s w : tr k s (set_window s w). Proof. tr_tac. Qed.
+Lemma tr_set_snd k s n : tr k s (set_snd s n). Proof. tr_tac. Qed.
+Lemma tr_set_recv k s r q : tr k s (set_recv s r q). Proof. tr_tac. Qed.
+Lemma tr_done_flags k s : tr k s (set_flags s (st_responded s) false (st_abandoned s)).
+Proof. tr_tac; try (intro; discriminate). Qed.
+Lemma tr_respond k s r a : st_headersFinished s = true -> 3 <= sstate_rank (st_state s) -> tr k s (set_flags s true r a).
+Proof. intros H1 H2. tr_tac. Qed.
+
+(* closing *)
+Lemma tr_set_state_closed k s : close_ok k s -> tr k s (set_state s SClosed).
+Proof. intro OK. tr_tac. destruct (st_state s); cbn; lia. Qed.
+Lemma tr_reset_closed k s : tr k s (set_state (set_weReset s) SClosed).
+Proof. tr_tac; [destruct (st_state s); cbn; lia|]. intros _. right. intros _ _. left. reflexivity. Qed.
+Lemma tr_set_state k s st : st <> SClosed -> sstate_rank (st_state s) <= sstate_rank st -> tr k s (set_state s st).
+Proof. intros N0 H. tr_tac. intro E. congruence. Qed.
+Lemma tr_handle_state k fr s : (st_state (handle_state fr s) = SClosed -> close_ok k s) -> tr k s (handle_state fr s).
 Proof.
   unfold handle_state. destruct (fkind_eqb (sf_kind fr) KRst).
-  - cbn [st_state set_state]. apply tr_set_state_closed.
-  - destruct (st_state s) eqn:E;
+  - cbn [st_state set_state]. intro OK. apply tr_set_state_closed. apply OK. reflexivity.
+  - intros _. destruct (st_state s) eqn:E;
     repeat match goal with |- context [if ?b then _ else _] => destruct b end;
-    try apply tr_refl; apply tr_set_state; rewrite E; cbn; lia.
+    try apply tr_refl; apply tr_set_state; try discriminate; rewrite E; cbn; lia.
 Qed.
-Lemma tr_done_flags s : tr s (set_flags s (st_responded s) false (st_abandoned s)).
-Proof. tr_tac; try (intro; discriminate). Qed.
-Lemma tr_respond s r a : st_headersFinished s = true -> 3 <= sstate_rank (st_state s) -> tr s (set_flags s true r a).
-Proof. intros H1 H2. tr_tac. Qed.
 
 (* the per-stream invariant; idp says which ids may be in the middle of a header block *)
 Definition P (idp : N -> Prop) (s : stream) : Prop :=
   (st_headersFinished s = true -> st_prev s = []) /\
   (st_responded s = true -> st_headersFinished s = true /\ 3 <= sstate_rank (st_state s)) /\
   (st_handlerRunning s = true -> st_responded s = true) /\
-  (st_headersFinished s = false -> idp (st_id s)).
+  (st_headersFinished s = false -> idp (st_id s)) /\
+  (st_state s = SClosed -> close_ok true s).
 
-Lemma P_tr idp s x : P idp s -> tr s x -> P idp x.
+Lemma P_tr idp s x : P idp s -> tr true s x -> P idp x.
 Proof.
-  unfold P, tr, hv. intros (P1 & P2 & P3 & P4) (T1 & T2 & T3 & T4 & T5). inversion T1 as [[Ti Th Tp Tb]].
-  repeat split.
+  unfold P, tr, hv. intros (P1 & P2 & P3 & P4 & P5) (T1 & T2 & T3 & T4 & T5 & T6 & T7). inversion T1 as [[Ti Th Tp Tb]].
+  split; [|split; [|split; [|split]]].
   - rewrite Th, Tp. assumption.
-  - destruct (T4 H) as [H1|[H1 H2]]; [rewrite Th; apply P2; assumption | congruence].
-  - destruct (T4 H) as [H1|[H1 H2]]; [destruct (P2 H1); lia | assumption].
+  - intro H. destruct (T4 H) as [H1|[H1 H2]].
+    + destruct (P2 H1). split; [congruence | lia].
+    + split; [congruence | assumption].
   - intro H. destruct (T5 H) as [H1|H1]; auto.
   - rewrite Th, Ti. assumption.
+  - intro H. destruct (T7 H) as [H1|H1]; [|assumption].
+    intros K Hf. rewrite Th in Hf. destruct (P5 H1 K Hf) as [W|R]; [left | right]; auto.
 Qed.
 
-Lemma Forall2_tr_refl l : Forall2 tr l l.
+Lemma Forall2_tr_refl k l : Forall2 (tr k) l l.
 Proof. induction l; constructor; auto using tr_refl. Qed.
 
-Lemma put_tr l x s : strms_search l (st_id x) = Some s -> tr s x -> Forall2 tr l (strms_put l x).
+Lemma put_tr k l x s : strms_search l (st_id x) = Some s -> tr k s x -> Forall2 (tr k) l (strms_put l x).
 Proof.
   induction l as [|y t IH]; cbn [strms_search strms_put]; [discriminate|].
   destruct (st_id y =? st_id x) eqn:E; intros H S.
@@ -189,23 +211,23 @@ Proof.
   - constructor; [apply tr_refl | auto].
 Qed.
 
-Lemma Forall2_tr_ids l l' : Forall2 tr l l' -> map st_id l' = map st_id l.
-Proof. induction 1 as [|a b l l' H _ IH]; cbn [map]; [reflexivity|]. rewrite IH, (tr_id _ _ H). reflexivity. Qed.
+Lemma Forall2_tr_ids k l l' : Forall2 (tr k) l l' -> map st_id l' = map st_id l.
+Proof. induction 1 as [|a b l l' H _ IH]; cbn [map]; [reflexivity|]. rewrite IH, (tr_id _ _ _ H). reflexivity. Qed.
 
-Lemma Forall2_tr_search l l' id : Forall2 tr l l' ->
+Lemma Forall2_tr_search k l l' id : Forall2 (tr k) l l' ->
   match strms_search l id with
-  | Some s => exists x, strms_search l' id = Some x /\ tr s x
+  | Some s => exists x, strms_search l' id = Some x /\ tr k s x
   | None => strms_search l' id = None
   end.
 Proof.
   induction 1 as [|a b l l' H _ IH]; cbn [strms_search]; [reflexivity|].
-  rewrite (tr_id _ _ H). destruct (st_id a =? id); [exists b; auto | exact IH].
+  rewrite (tr_id _ _ _ H). destruct (st_id a =? id); [exists b; auto | exact IH].
 Qed.
 
-Lemma Forall2_tr_P idp l l' : Forall2 tr l l' -> Forall (P idp) l -> Forall (P idp) l'.
+Lemma Forall2_tr_P idp l l' : Forall2 (tr true) l l' -> Forall (P idp) l -> Forall (P idp) l'.
 Proof. induction 1 as [|a b l l' H _ IH]; intro F; [constructor|]. inversion F; subst. constructor; eauto using P_tr. Qed.
 
-Lemma Forall2_tr_In l l' x : Forall2 tr l l' -> In x l' -> exists s, In s l /\ tr s x.
+Lemma Forall2_tr_In k l l' x : Forall2 (tr k) l l' -> In x l' -> exists s, In s l /\ tr k s x.
 Proof.
   induction 1 as [|a b l l' H _ IH]; [intros []|]. intros [->|I]; [exists a; split; [left; reflexivity | assumption]|].
   destruct (IH I) as (s & Is & T). exists s. split; [right|]; assumption.
@@ -265,9 +287,8 @@ Qed.
    (then closeStream keeps the carry) or if it has been answered (impossible: see P) *)
 Inductive hmv (strict : bool) : sconn -> sconn -> Prop :=
 | hm_same c c' : hsame c c' -> hmv strict c c'
-| hm_map c l : Forall2 tr (sc_strms c) l -> hmv strict c (upd_strms c l)
-| hm_close c s x : strms_search (sc_strms c) (st_id x) = Some s -> tr s x ->
-    (strict = true -> st_headersFinished x = false -> st_weReset x = true \/ st_responded x = true) ->
+| hm_map c l : Forall2 (tr strict) (sc_strms c) l -> hmv strict c (upd_strms c l)
+| hm_close c s x : strms_search (sc_strms c) (st_id x) = Some s -> tr strict s x -> close_ok strict x ->
     hmv strict c (close_stream c x)
 | hm_mark c id w : id <= sc_highestID c -> hmv strict c (mark_closed c id w)
 | hm_highest c sid : sc_highestID c < sid -> hmv strict c (upd_highestID c sid)
@@ -294,7 +315,7 @@ Lemma hmvs_ind_rel k (R : sconn -> sconn -> Prop) :
 Proof. intros Hr Ht Hm a b M. induction M; eauto. Qed.
 
 (* put = map *)
-Lemma hmv_put k c s x : strms_search (sc_strms c) (st_id x) = Some s -> tr s x -> hmv k c (put c x).
+Lemma hmv_put k c s x : strms_search (sc_strms c) (st_id x) = Some s -> tr k s x -> hmv k c (put c x).
 Proof. intros H T. unfold put. apply hm_map. eapply put_tr; eassumption. Qed.
 
 (* ---------- what the moves keep ---------- *)
@@ -440,16 +461,16 @@ Proof.
     destruct (st_handlerRunning x); unfold release_stream, note; sc_split_ifs; sc_cbn; sc_rw; reflexivity.
 Qed.
 
-Lemma hmv_HInv k idp a b : hmv k a b -> HInv idp a -> sc_sl_done b = false -> HInv idp b.
+Lemma hmv_HInv idp a b : hmv true a b -> HInv idp a -> sc_sl_done b = false -> HInv idp b.
 Proof.
   intros M H Hd. destruct M as [c c' S|c l F|c s x SS T W|c id w Hid|c sid Hs|c sid code|c Hc|c|c c' _ _ D _ _].
   - unfold hsame in S. destruct S as (_ & E1 & _ & _ & E2 & E3 & E4 & E5 & _). destruct H.
     constructor; rewrite ?E1, ?E2, ?E3, ?E4, ?E5; assumption.
   - destruct H. constructor; sc_cbn; auto.
-    + rewrite (Forall2_tr_ids _ _ F). assumption.
+    + rewrite (Forall2_tr_ids _ _ _ F). assumption.
     + eapply Forall2_tr_P; eassumption.
-    + intros y I. destruct (Forall2_tr_In _ _ _ F I) as (s & Is & Ts). rewrite (tr_id _ _ Ts). auto.
-    + rewrite (Forall2_tr_ids _ _ F). assumption.
+    + intros y I. destruct (Forall2_tr_In _ _ _ _ F I) as (s & Is & Ts). rewrite (tr_id _ _ _ Ts). auto.
+    + rewrite (Forall2_tr_ids _ _ _ F). assumption.
   - destruct H. pose proof (close_stream_discard c x) as CD.
     pose proof (strms_search_In _ _ _ SS) as [Is Eid].
     constructor; rewrite ?sc_strms_close_stream; sc_rw; auto.
@@ -481,7 +502,7 @@ Qed.
 Lemma hmvs_sl_done_mono k a b : hmvs k a b -> sc_sl_done a = true -> sc_sl_done b = true.
 Proof. induction 1; eauto using hmv_sl_done_mono. Qed.
 
-Lemma hmvs_HInv k idp a b : hmvs k a b -> HInv idp a -> sc_sl_done b = false -> HInv idp b.
+Lemma hmvs_HInv idp a b : hmvs true a b -> HInv idp a -> sc_sl_done b = false -> HInv idp b.
 Proof.
   induction 1 as [|a b c M MS IH]; intros H Hd; [assumption|].
   apply IH; [|assumption]. eapply hmv_HInv; [eassumption | assumption|].
@@ -496,8 +517,8 @@ Proof.
     unfold carry_at; sc_rw; auto.
   - unfold hsame in S. destruct S as (_ & E1 & E2 & E3 & E4 & _). rewrite E1, E2, E3, E4. auto.
   - sc_cbn. destruct (sc_discardID c =? cur); [auto|].
-    pose proof (Forall2_tr_search _ _ cur F) as FS. destruct (strms_search (sc_strms c) cur) as [s|]; [|discriminate].
-    destruct FS as (x & -> & T). rewrite (tr_hf _ _ T), (tr_bf _ _ T), (tr_prev _ _ T). auto.
+    pose proof (Forall2_tr_search _ _ _ cur F) as FS. destruct (strms_search (sc_strms c) cur) as [s|]; [|discriminate].
+    destruct FS as (x & -> & T). rewrite (tr_hf _ _ _ T), (tr_bf _ _ _ T), (tr_prev _ _ _ T). auto.
   - pose proof (close_stream_discard c x) as CD. rewrite sc_strms_close_stream.
     pose proof (strms_search_In _ _ _ SS) as [Is Eid].
     assert (Px : P (eq cur) x). { eapply P_tr; [|exact T]. destruct H. rewrite Forall_forall in hi_P0. auto. }
@@ -505,22 +526,22 @@ Proof.
     + (* in the registers: they are not overwritten *)
       destruct (st_weReset x && negb (st_headersFinished x) && negb (sc_discardID c =? st_id x))%bool eqn:Fire.
       * exfalso. apply andb_prop in Fire. destruct Fire as [Fire F3]. apply andb_prop in Fire. destruct Fire as [_ F2].
-        destruct Px as (_ & _ & _ & P4). apply negb_true_iff in F2. specialize (P4 F2). lia.
+        destruct Px as (_ & _ & _ & P4 & _). apply negb_true_iff in F2. specialize (P4 F2). lia.
       * inversion CD as [[E1 E2 E3]]. rewrite E1, E2, E3, Ed. auto.
     + destruct (strms_search (sc_strms c) cur) as [s0|] eqn:S0; [|discriminate].
       destruct (st_headersFinished s0) eqn:H0; [discriminate|]. intro V.
       destruct (N.eq_dec (st_id x) cur) as [Ex|Nx].
       * (* the stream in the middle of its block is closed: it was reset, the carry moves to the registers *)
         rewrite Ex in SS. rewrite SS in S0. inversion S0; subst s0.
-        assert (Hx : st_headersFinished x = false) by (rewrite (tr_hf _ _ T); assumption).
+        assert (Hx : st_headersFinished x = false) by (rewrite (tr_hf _ _ _ T); assumption).
         assert (Wx : st_weReset x = true).
         { destruct (W eq_refl Hx) as [Wx|Rx]; [assumption|]. destruct Px as (_ & P2 & _). destruct (P2 Rx). congruence. }
         rewrite Wx, Hx in CD. replace (sc_discardID c =? st_id x) with false in CD by lia. cbn [andb negb] in CD.
         inversion CD as [[E1 E2 E3]]. rewrite E1, E2, E3. replace (st_id x =? cur) with true by lia.
-        rewrite (tr_bf _ _ T), (tr_prev _ _ T). assumption.
+        rewrite (tr_bf _ _ _ T), (tr_prev _ _ _ T). assumption.
       * destruct (st_weReset x && negb (st_headersFinished x) && negb (sc_discardID c =? st_id x))%bool eqn:Fire.
         -- exfalso. apply andb_prop in Fire. destruct Fire as [Fire F3]. apply andb_prop in Fire. destruct Fire as [_ F2].
-           destruct Px as (_ & _ & _ & P4). apply negb_true_iff in F2. specialize (P4 F2). congruence.
+           destruct Px as (_ & _ & _ & P4 & _). apply negb_true_iff in F2. specialize (P4 F2). congruence.
         -- inversion CD as [[E1 E2 E3]]. rewrite E1, Ed. rewrite iso_search_del_other by congruence. rewrite S0, H0. assumption.
   - congruence.
 Qed.
